@@ -1,2 +1,3 @@
 import ZxVerif.Props.C17
 import ZxVerif.Props.C01
+import ZxVerif.Props.C02
